@@ -85,11 +85,26 @@ class State:
         return [e for e in self.events if e.kind in ('setattr', 'setitem')]
 
 
+class _ForkInline(Exception):
+    def __init__(self, node, paths_):
+        self.node = node
+        self.paths = paths_
+
+
 class Evaluator:
     """Evaluates one function.  ``bind`` maps parameter names to caller-supplied terms."""
 
     def __init__(self, repo: Repo, fn: FunctionInfo, bind: Optional[Dict[str, Term]] = None,
-                 max_paths: int = MAX_PATHS, loop_unroll: int = 1):
+                 max_paths: int = MAX_PATHS, loop_unroll: int = 1, inline=None, _depth: int = 0):
+        # ``inline``: predicate FunctionInfo -> bool.  Calls of repository functions / methods
+        # of the same object it accepts are replaced by the callee's body: its events are
+        # spliced into the caller's path (contexts prefixed) and the call evaluates to what the
+        # callee returns.  A callee with several returning paths is inlined only where the call
+        # is the whole statement / assigned value / returned value (the caller's path forks).
+        self.inline = inline
+        self._depth = _depth
+        self._stmt_call = None
+        self._forced: Dict[int, State] = {}
         self.repo = repo
         self.fn = fn
         self.module: Module = fn.module
@@ -135,7 +150,79 @@ class Evaluator:
         if m is None:
             raise AnalysisError(f'{self.fn.where}: unsupported statement {type(st).__name__} '
                                 f'at line {st.lineno}')
-        return m(st, s)
+        if self.inline is None:
+            return m(st, s)
+        top = None
+        if isinstance(st, (ast.Expr, ast.Return)) and isinstance(st.value, ast.Call):
+            top = st.value
+        elif isinstance(st, (ast.Assign, ast.AnnAssign)) and isinstance(st.value, ast.Call):
+            top = st.value
+        if top is None:
+            return m(st, s)
+        pristine = s.fork()
+        prev, self._stmt_call = self._stmt_call, top
+        try:
+            return m(st, s)
+        except _ForkInline as fk:
+            outs: List[State] = []
+            for q in fk.paths:
+                s2 = pristine.fork()
+                self._forced[id(fk.node)] = q
+                try:
+                    outs.extend(m(st, s2))
+                finally:
+                    self._forced.pop(id(fk.node), None)
+            return outs
+        finally:
+            self._stmt_call = prev
+
+    # -- inlining --------------------------------------------------------------------------
+    def _inline_target(self, f: Term, args, kws):
+        if self.inline is None or self._depth >= 2:
+            return None
+        fi, bind = None, {}
+        if f[0] == 'global' and f[1] in self.repo.functions:
+            cand = self.repo.functions[f[1]]
+            if cand.cls is None and cand is not self.fn:
+                fi, formal = cand, list(cand.params)
+        elif f[0] == 'attr' and self.fn.cls is not None and self.fn.params and \
+                f[1] == self.bind.get(self.fn.params[0], ('param', self.fn.params[0])) and \
+                self.fn.kind != 'static':
+            cand = self.repo.find_method(self.fn.cls, f[2])
+            if cand is not None and cand is not self.fn and cand.kind in ('method', 'static'):
+                fi = cand
+                if cand.kind == 'method':
+                    bind[cand.params[0]] = f[1]
+                    formal = list(cand.params[1:])
+                else:
+                    formal = list(cand.params)
+        if fi is None or not fi.module.name.startswith('plinio.') or not self.inline(fi):
+            return None
+        if any(isinstance(a, tuple) and a and a[0] == 'starred' for a in args):
+            return None
+        for prm, a in zip(formal, args):
+            bind[prm] = a
+        for k, a in kws:
+            if k == '**':
+                return None
+            bind[k] = a
+        for prm, dv in fi.defaults().items():
+            if prm not in bind:
+                bind[prm] = ('const', dv.value) if isinstance(dv, ast.Constant) else \
+                    ('unknown', 'default', prm)
+        for prm in fi.all_params:
+            bind.setdefault(prm, ('unknown', 'unbound', prm))
+        return fi, bind
+
+    def _splice(self, s: State, q: State):
+        for e in q.events:
+            if e.kind == 'return':
+                continue
+            s.events.append(Event(e.kind, e.data, e.node, tuple(s.ctx) + tuple(e.ctx)))
+        for a in q.assumptions:
+            if a not in s.assumptions:
+                s.assumptions.append(a)
+        s.types.update(q.types)
 
     def st_Expr(self, st: ast.Expr, s: State):
         if isinstance(st.value, ast.Constant):
@@ -684,12 +771,39 @@ class Evaluator:
             if args[0][0] == 'global':
                 s.types[args[1]] = args[0][1]
             return args[1]
+        tgt = self._inline_target(f, args, kws)
+        if tgt is not None:
+            if id(e) in self._forced:
+                q = self._forced[id(e)]
+                self._splice(s, q)
+                return q.retval if q.retval is not None else NONE
+            fi, cbind = tgt
+            try:
+                sub = Evaluator(self.repo, fi, cbind, self.max_paths, self.loop_unroll,
+                                self.inline, self._depth + 1).run()
+            except AnalysisError:
+                sub = []
+            rets = [q for q in sub if q.status == 'return']
+            if len(rets) == 1:
+                self._splice(s, rets[0])
+                return rets[0].retval if rets[0].retval is not None else NONE
+            if len(rets) > 1 and e is self._stmt_call and len(rets) <= 8:
+                raise _ForkInline(e, rets)
         # getattr(obj, 'name') with a constant name is the attribute itself
         if f == ('global', 'builtins.getattr') and len(args) == 2 and not kws and \
                 args[1][0] == 'const' and isinstance(args[1][1], str):
             return ('attr', args[0], args[1][1])
         t = ('call', f, args, kws)
         s.events.append(Event('call', (t,), e, s.ctx))
+        # d.update({'k': v, ...}) / d.update(k=v) store the listed items
+        if f[0] == 'attr' and f[2] == 'update' and len(args) <= 1:
+            items = []
+            if args and args[0][0] == 'dict' and all(k[0] == 'const' for k, _ in args[0][1]):
+                items = [(k, v) for k, v in args[0][1]]
+            if not args or items:
+                items += [(('const', k), v) for k, v in kws if k != '**']
+            for k, v in items:
+                s.events.append(Event('setitem', (f[1], k, v, False), e, s.ctx))
         # setattr(obj, 'name', v) with a constant name is an attribute store
         if f == ('global', 'builtins.setattr') and len(args) == 3 and args[1][0] == 'const' and \
                 isinstance(args[1][1], str):
